@@ -251,6 +251,30 @@ func ruleC16(c *Ctx) {
 						stV, whyV = broken, fmt.Sprintf("isoschizomers are split on %q; the format separates them with \",\"", sep)
 					}
 				}
+				// the pieces are the names as written only if nobody rewrites them afterwards: a store into an
+				// element of the very list that goes into the field
+				if sv, isV := st.Val.(ssa.Value); isV && stV == holds && sv.Referrers() != nil {
+					for _, r := range *sv.Referrers() {
+						ia, isIA := r.(*ssa.IndexAddr)
+						if !isIA || ia.X != sv || ia.Referrers() == nil {
+							continue
+						}
+						for _, rr := range *ia.Referrers() {
+							w, isSt := rr.(*ssa.Store)
+							if !isSt || w.Addr != ssa.Value(ia) {
+								continue
+							}
+							stV, whyV = unknown, "an element of the split list is stored again at "+c.W.pos(w.Pos())+"; what is stored there is not read"
+							if cl, isCall := w.Val.(*ssa.Call); isCall {
+								switch n := calleeName(cl); n {
+								case "strings.TrimSpace", "strings.Trim", "strings.TrimLeft", "strings.TrimRight", "strings.TrimFunc", "strings.TrimPrefix", "strings.TrimSuffix",
+									"strings.ToUpper", "strings.ToLower", "strings.Title", "strings.ToTitle", "strings.Replace", "strings.ReplaceAll":
+									stV, whyV = broken, "the names cut from the "+tag+" line are rewritten through "+n+" at "+c.W.pos(w.Pos())+" before they are stored: a name that differs from its rewritten form (blanks around it, other case) is not returned as the listing states it"
+								}
+							}
+						}
+					}
+				}
 			} else if (val.isCall("strings.Fields") || val.isCall("strings.FieldsFunc")) && len(val.Args) >= 1 {
 				// Fields / FieldsFunc never yield an empty element: an empty <2> line gives no element where
 				// Split gives one empty name, and "A,,B" loses its middle entry
